@@ -29,6 +29,11 @@ func enumerateCases(prop, tier string) []ProvCase {
 			cases = append(cases, ProvCase{Kind: "fleet", Size: n, Failure: "fleet-errors-only"})
 			cases = append(cases, ProvCase{Kind: "fleet", Size: n, Failure: "fleet-errors-plus"})
 			cases = append(cases, ProvCase{Kind: "fleet", Size: n, Failure: "status-error", K: 1})
+			if n > 20 && n <= 60 && (prop == "C17" || prop == "C04") {
+				for k := 2; k <= batches; k++ {
+					cases = append(cases, ProvCase{Kind: "fleet", Size: n, Failure: "attach-then-over-max", K: k})
+				}
+			}
 			if n <= 41 {
 				cases = append(cases, ProvCase{Kind: "fleet", Size: n, Failure: "never-ready", Repeat: 3})
 				cases = append(cases, ProvCase{Kind: "fleet", Size: n, Failure: "attach", K: batches, Repeat: 3})
